@@ -189,3 +189,30 @@ func mustStruct(p *core.Prog, short, name string) *types.Struct {
 	}
 	return st
 }
+
+// v2BlockWriters finds, by role, the functions of the V2 storage package that append a block to
+// the file: they pass the serialized form of a BlockHeader to (*os.File).Write. The rules about
+// block appends are applied wherever these writes live (today FileWriter.flushLocked), so that
+// moving them into a helper does not hide them from the rules or break the rules' anchors.
+func v2BlockWriters(c *core.Ctx) []*core.Func {
+	var out []*core.Func
+	for _, f := range c.P.FuncsIn(pkgV2) {
+		if f.Decl.Body == nil {
+			continue
+		}
+		info := f.Info()
+		found := false
+		core.Calls(f.Decl.Body, false, func(call *ast.CallExpr) {
+			if core.IsCallTo(info, call, "os.File.Write") && len(call.Args) == 1 {
+				if ac, ok := core.Unparen(call.Args[0]).(*ast.CallExpr); ok && core.IsWsCallTo(info, ac, pkgV2+".BlockHeader.Serialize") {
+					found = true
+				}
+			}
+		})
+		if found {
+			out = append(out, f)
+			c.Touch(f)
+		}
+	}
+	return out
+}
